@@ -17,7 +17,7 @@ Require Import Grits.Base Grits.Forms Grits.Expand Grits.TcTop Grits.Runtime.
 Require Import Grits.RuntimeFootprint Grits.proofs.RuntimeFacts Grits.proofs.Diamond Grits.proofs.Determinism Grits.proofs.AsyncSync Grits.proofs.RuntimeCheckFacts Grits.proofs.ForkJoin Grits.proofs.DeterminismExamples.
 Require Import Grits.Tc Grits.spec.RtTyping Grits.spec.Topo Grits.proofs.RtSafety Grits.proofs.RtInit Grits.proofs.RtTheorems Grits.proofs.DeterminismTyped Grits.proofs.TopoLin Grits.proofs.TopoStep Grits.proofs.TopoReach Grits.proofs.InitLinear.
 Require Import Grits.spec.SynOk Grits.proofs.RtTcSyn Grits.proofs.RtTheoremsTc Grits.proofs.DeterminismTc.
-Require Import Grits.proofs.LinBridge Grits.proofs.InitAccept Grits.proofs.DeterminismAccept Grits.proofs.TopoStepExt Grits.proofs.TopoFinish Grits.proofs.TopoDup Grits.proofs.InvAll Grits.proofs.DeterminismAll Grits.proofs.AsyncSync Grits.proofs.InvNP Grits.proofs.PlainNP Grits.proofs.DeterminismNP Grits.proofs.Balanced Grits.proofs.RtTheoremsTc Grits.proofs.DeterminismFinal Grits.proofs.NPConfluence Grits.proofs.NPCfree Grits.proofs.NPJoin Grits.proofs.NPJoinA Grits.proofs.NPJoinBC Grits.proofs.NPDeterminism Grits.proofs.DeterminismNPCfree Grits.proofs.NPSync Grits.proofs.RtSafetyNP Grits.proofs.StepErrors Grits.ModeDefs Grits.Modes Grits.STypes.
+Require Import Grits.proofs.LinBridge Grits.proofs.InitAccept Grits.proofs.DeterminismAccept Grits.proofs.TopoStepExt Grits.proofs.TopoFinish Grits.proofs.TopoDup Grits.proofs.InvAll Grits.proofs.DeterminismAll Grits.proofs.AsyncSync Grits.proofs.InvNP Grits.proofs.PlainNP Grits.proofs.DeterminismNP Grits.proofs.Balanced Grits.proofs.RtTheoremsTc Grits.proofs.DeterminismFinal Grits.proofs.NPConfluence Grits.proofs.NPCfree Grits.proofs.NPJoin Grits.proofs.NPJoinA Grits.proofs.NPJoinBC Grits.proofs.NPDeterminism Grits.proofs.DeterminismNPCfree Grits.proofs.NPSync Grits.proofs.NPFlush Grits.proofs.NPNegFwd Grits.proofs.NPAgreeNeg Grits.proofs.NPAgreeNegConv Grits.proofs.NPPosFwd Grits.proofs.RtSafetyNP Grits.proofs.StepErrors Grits.ModeDefs Grits.Modes Grits.STypes Grits.Subst.
 
 Theorem C03_step_is_move : forall md D F c ch, step md D F c ch = sres_of c (move_of md D F c ch).
 Proof. exact step_move. Qed.
@@ -728,6 +728,88 @@ Theorem C03_np_ctl_is_sync_neg : forall D F c f t to from nf nxf n0 body nx k st
   step NP D F c (Control f t) = step Sync D F c (Rendezvous f t).
 Proof. exact np_ctl_is_sync_neg. Qed.
 
+(* ---- where the synchronous polarized mode is quiescent, the non-polarized mode can only hand over control, printing nothing *)
+Theorem C03_np_flush_step : forall D F teq, teq_laws D teq -> funs_typed D F teq ->
+  forall c ch c1, JN D F teq c -> quiescent Sync D F c -> step NP D F c ch = SStep c1 ->
+  quiescent Sync D F c1 /\ out c1 = out c /\ exists f t, ch = Control f t.
+Proof. exact flush_step. Qed.
+
+Theorem C03_np_flush_run : forall D F teq, teq_laws D teq -> funs_typed D F teq ->
+  forall n c t, funs_aff F -> nofd_funs F -> cfree_funs F ->
+  JN D F teq c -> quiescent Sync D F c -> bsteps (stp NP D F) n c t -> quiescent Sync D F t /\ out t = out c.
+Proof. exact flush_run. Qed.
+
+(* ---- the class of negative forwards: closed under the steps; a synchronous step IS a non-polarized step *)
+Theorem C03_nfw_subst : forall D old new f, nfw D (subst old new f) = nfw D f.
+Proof. exact nfw_subst. Qed.
+
+Theorem C03_nf_step_np : forall D F, nfw_funs D F ->
+  forall c ch c', NF D c -> bufs_empty c -> step NP D F c ch = SStep c' -> NF D c'.
+Proof. exact nf_step_np. Qed.
+
+Theorem C03_sync_step_np_exact : forall D F teq, teq_laws D teq -> funs_typed D F teq ->
+  forall c ch c', JN D F teq c -> NF D c -> step Sync D F c ch = SStep c' -> exists ch', step NP D F c ch' = SStep c'.
+Proof. exact sync_step_np_exact. Qed.
+
+(* ---- the last clause of the property for contraction-free programs WITH forwards (all at negative types), without drop *)
+Theorem C03_np_polarized_agree_negfwd_cfg : forall D F teq, teq_laws D teq -> funs_typed D F teq -> funs_aff F -> nofd_funs F -> nfw_funs D F ->
+  forall c pick1 f1 t1, JN D F teq c -> NF D c -> exec_run f1 pick1 NP D F c = RQuiescent t1 ->
+  forall pick2 f2, (f1 <= f2)%nat -> exists t2, exec_run f2 pick2 Sync D F c = RQuiescent t2 /\ labels t2 ≡ₚ labels t1.
+Proof. exact np_sync_agree_neg_cfg. Qed.
+
+Theorem C03_np_polarized_agree_negfwd : forall txt p p' pick1 f1 t1,
+  parse_string txt = POk p -> typecheck p = Accept p' -> in_fragment p' -> negfwd_prog_b p' = true ->
+  exec_run f1 pick1 NP (p_types p') (p_funs p') (init_config p') = RQuiescent t1 ->
+  (forall pick2 f2, (f1 <= f2)%nat ->
+     exists t2, exec_run f2 pick2 Sync (p_types p') (p_funs p') (init_config p') = RQuiescent t2 /\ labels t2 ≡ₚ labels t1) /\
+  exists n, forall pick2 f2, (n < f2)%nat ->
+    exists t2, exec_run f2 pick2 Async (p_types p') (p_funs p') (init_config p') = RQuiescent t2 /\ labels t2 ≡ₚ labels t1.
+Proof. exact np_polarized_agree_negfwd. Qed.
+
+Example C03_example_negfwd_accept : negfwd_text example_negfwd_text = true.
+Proof. exact example_negfwd_accept. Qed.
+
+Example C03_example_negfwd_runs :
+  run_text example_negfwd_text NP (fun _ _ => 0%nat) = Some (1%nat, ["served"; "done"], true) /\
+  run_text example_negfwd_text Sync (fun _ _ => 0%nat) = Some (1%nat, ["served"; "done"], true) /\
+  run_text example_negfwd_text Async (fun _ _ => 0%nat) = Some (0%nat, ["served"; "done"], true).
+Proof. exact example_negfwd_runs. Qed.
+
+(* ---- the converse: a complete synchronous run is matched by every long enough non-polarized run *)
+Theorem C03_np_flush_terminates : forall D F teq, teq_laws D teq -> funs_typed D F teq -> funs_aff F -> nofd_funs F -> nfw_funs D F ->
+  forall n c, (size (procs c) <= n)%nat -> JN D F teq c -> quiescent Sync D F c ->
+  exists j t, bsteps (stp NP D F) j c t /\ quiescent NP D F t.
+Proof. exact flush_terminates. Qed.
+
+Theorem C03_polarized_np_agree_negfwd_cfg : forall D F teq, teq_laws D teq -> funs_typed D F teq -> funs_aff F -> nofd_funs F -> nfw_funs D F ->
+  forall c pick1 f1 t1, JN D F teq c -> NF D c -> exec_run f1 pick1 Sync D F c = RQuiescent t1 ->
+  exists n, forall pick2 f2, (n < f2)%nat -> exists t2, exec_run f2 pick2 NP D F c = RQuiescent t2 /\ labels t2 ≡ₚ labels t1.
+Proof. exact sync_np_agree_neg_cfg. Qed.
+
+Theorem C03_polarized_np_agree_negfwd : forall txt p p' pick1 f1 t1,
+  parse_string txt = POk p -> typecheck p = Accept p' -> in_fragment p' -> negfwd_prog_b p' = true ->
+  exec_run f1 pick1 Sync (p_types p') (p_funs p') (init_config p') = RQuiescent t1 ->
+  exists n, forall pick2 f2, (n < f2)%nat ->
+    exists t2, exec_run f2 pick2 NP (p_types p') (p_funs p') (init_config p') = RQuiescent t2 /\ labels t2 ≡ₚ labels t1.
+Proof. exact polarized_np_agree_negfwd. Qed.
+
+(* ---- groundwork for positive forwards (the agreement is NOT proved for them): where the two modes part *)
+Theorem C03_pos_handover_steps : forall D F c f t to from nf nxf n0 B nx k kf st m,
+  f <> t ->
+  procs c !! f = Some (Proc [nf] (FFwd to from false) nxf) -> is_self to = true -> chan from = Some k ->
+  fwd_polarity D from = Ok Pos -> chan nf = Some kf ->
+  procs c !! t = Some (Proc [n0] B nx) -> chan n0 = Some k ->
+  action_of Async D (Proc [n0] B nx) = ASend k m -> pos_rule (m_rule m) = true ->
+  chans c !! k = Some st -> ch_closed st = false ->
+  exists B',
+    step Sync D F c (Rendezvous t f) =
+      SStep (Cfg (<[f := Proc [nf] B' (nxf + 0)]> (delete t (procs c))) (chans c) (out c)) /\
+    step NP D F c (Control f t) =
+      SStep (Cfg (<[t := Proc [nf] B (nx + 0)]> (delete f (procs c))) (close_all [k] (chans c)) (out c)) /\
+    action_of Async D (Proc [nf] B' (nxf + 0)) = ASend kf m /\
+    action_of Async D (Proc [nf] B (nx + 0)) = ASend kf m.
+Proof. exact pos_handover_steps. Qed.
+
 Print Assumptions C03_init_linear_accept.
 Print Assumptions C03_topo_runs_core_accept.
 Print Assumptions C03_determinism_core_accept.
@@ -770,3 +852,16 @@ Print Assumptions C03_example_np_cfree.
 Print Assumptions C03_np_run_is_sync.
 Print Assumptions C03_np_rdv_is_sync.
 Print Assumptions C03_np_ctl_is_sync_neg.
+Print Assumptions C03_np_flush_step.
+Print Assumptions C03_np_flush_run.
+Print Assumptions C03_nfw_subst.
+Print Assumptions C03_nf_step_np.
+Print Assumptions C03_sync_step_np_exact.
+Print Assumptions C03_np_polarized_agree_negfwd_cfg.
+Print Assumptions C03_np_polarized_agree_negfwd.
+Print Assumptions C03_example_negfwd_accept.
+Print Assumptions C03_example_negfwd_runs.
+Print Assumptions C03_np_flush_terminates.
+Print Assumptions C03_polarized_np_agree_negfwd_cfg.
+Print Assumptions C03_polarized_np_agree_negfwd.
+Print Assumptions C03_pos_handover_steps.
